@@ -786,7 +786,7 @@ def map_full_stage(rep, tcfg, what, prefix, wrap=False, limits=(255,)):
     quick = rep.tier == "quick"
     plans = [("mixed", 8, 6 if quick else 7, "{12, 101}", 24 if quick else 4)]
     if not quick:
-        plans += [("mixed", 10, 7, "{12, 60, 101}", 40), ("pairs", 6, 6, "{12, 60, 101}", 2), ("triples", 6, 6, "{12, 101}", 2), ("deep", 6, 6, "{12, 101}", 1)]
+        plans += [("mixed", 8, 7, "{12, 60, 101}", 16), ("pairs", 6, 6, "{12, 60, 101}", 2), ("triples", 6, 6, "{12, 101}", 2), ("deep", 6, 6, "{12, 101}", 1)]
     else:
         plans += [("triples", 6, 5, "{12, 101}", 12)]
     for lim in limits:
@@ -1260,13 +1260,13 @@ def probe_cmd(base, probes, rep):
     return [base, "-probe", probes, "-seed", str(rep.seed)]
 
 
-def array_probe_stages(rep, prefix, tcfg, what, probes, maxel_q=4, maxel_t=6, edge_den_q=2, walks=True, sizes="{19, 60, 117, 130}"):
+def array_probe_stages(rep, prefix, tcfg, what, probes, maxel_q=4, maxel_t=6, edge_den_q=2, walks=True, sizes="{19, 60, 117, 130}", edge_den_t=3):
     quick = rep.tier == "quick"
     maxel = maxel_q if quick else maxel_t
     consts = {"EmitEdges": "TRUE", "MaxElems": maxel, "T": 256, "Sizes": sizes}
     files, n, total = model_histories(rep, "MC_Array.tla", "MC_Array.cfg", consts,
                                       "MC_Array T=256 Sizes=%s MaxElems=%d (probes at the end of every history)" % (sizes, maxel),
-                                      {"cfg": {"T": 256}}, (lambda ops, key: frac(key + rep.seed, 1, edge_den_q)) if quick else None, prefix + "-amc")
+                                      {"cfg": {"T": 256}}, lambda ops, key: frac(key + rep.seed, 1, edge_den_q if quick else edge_den_t), prefix + "-amc")
     base = len(rep.distinct)
     rep.distinct.update(range(base, base + n))
     hist_stage(rep, prefix + "-array-edges", probe_cmd("array-run", probes, rep), "array", "ArrayTrace.tla", "ArrayTrace_%s.cfg" % tcfg, files, "edge", what)
